@@ -4,6 +4,8 @@
    its fuel.  Every theorem quantifies over ALL byte strings (all_bytes l: every element is in 0..255). *)
 From Relic Require Import Base.Prelude Base.Enc Generated.C11_gen C11.Model.
 From Relic Require C11.Proofs C17.Model.
+From Relic Require Import C11.Text.
+From Relic Require C11.TextProofs C11.Sites.
 
 (* binpatch.Load (request body of the patch endpoints, output of every remote signing) *)
 Theorem load_no_panic : forall l p, all_bytes l = true -> load l <> Panic p.
@@ -36,6 +38,83 @@ Proof. exact C11.Proofs.zip_directory_no_panic. Qed.
 Theorem zip_entries_fuel : forall fuel cd, (length cd < fuel)%nat -> C17.Model.read_entries fuel cd <> Err C17.Model.E_FUEL.
 Proof. exact C11.Proofs.zip_entries_fuel. Qed.
 
+(* ================================================================== hand-written text / line parsers (C11/Text.v) *)
+(* lib/signdeb parseControl — run by signdeb.Sign in a helper goroutine without recover, so a panic here ends the process:
+   for EVERY control file text (any bytes: empty lines, no colon, only a colon, leading blanks, comments, CR LF, NUL, no final
+   newline, lines of any length) the line loop returns a result or an error *)
+Theorem parse_control_no_panic : forall text p, parse_control text <> Panic p.
+Proof. exact C11.TextProofs.parse_control_no_panic. Qed.
+Theorem parse_control_ok_fields : forall text i, parse_control text = Ok i -> pi_pkg i <> [] /\ pi_ver i <> [].
+Proof. exact C11.TextProofs.parse_control_ok_fields. Qed.
+(* ... also behind the io.Pipe: the goroutine drains its reader after an early return, so the producer never blocks *)
+Theorem sign_control_pipe_no_panic : forall stream p, pipe_run c11_goroutines_releases_parseControl stream parse_control <> Panic p.
+Proof. exact C11.TextProofs.sign_control_pipe_no_panic. Qed.
+(* lib/signdeb checkSig: for EVERY signed body and digest table (any number of blanks in a digest line) a result or an
+   error; the input that crashed it before relic d376f3c is rejected as malformed *)
+Theorem check_sig_no_panic : forall digs body p, check_sig digs body <> Panic p.
+Proof. exact C11.TextProofs.check_sig_no_panic. Qed.
+Theorem cs_witness_is_error : check_sig [] C11.TextProofs.cs_witness = Err E_MALFORMED.
+Proof. exact C11.TextProofs.cs_witness_is_error. Qed.
+(* lib/signjar: splitManifest (cut positions from bytes.Index; the loop terminates), parseSection, parseManifest *)
+Theorem split_manifest_no_panic : forall m p, split_manifest m <> Panic p.
+Proof. exact C11.TextProofs.split_manifest_no_panic. Qed.
+Theorem parse_section_no_panic : forall s p, parse_section s <> Panic p.
+Proof. exact C11.TextProofs.parse_section_no_panic. Qed.
+Theorem parse_manifest_no_panic : forall m p, parse_manifest m <> Panic p.
+Proof. exact C11.TextProofs.parse_manifest_no_panic. Qed.
+(* DigestManifest: sections[0] and sections[1:] sit behind the emptiness check, for every manifest; the empty manifest is
+   the only input for which splitManifest reports neither a section nor a malformation (the case that check catches) *)
+Theorem digest_manifest_no_panic : forall m p, digest_manifest m <> Panic p.
+Proof. exact C11.TextProofs.digest_manifest_no_panic. Qed.
+Theorem split_manifest_empty_iff : forall m secs, split_manifest m = Ok (secs, false) -> (secs = [] <-> m = []).
+Proof. exact C11.TextProofs.split_manifest_empty_iff. Qed.
+Theorem parse_manifest_guards_digest : forall m r p, parse_manifest m = Ok r -> digest_manifest m <> Panic p.
+Proof. exact C11.TextProofs.parse_manifest_guards_digest. Qed.
+(* lib/pgptools: the line scanners cannot panic, and the goroutines around them close the read side of the pipe before
+   reporting, so DetachClearSign returns for EVERY message (a line at the scanner limit gives an error); without that
+   release one line of 65536 bytes blocks the writer for ever *)
+Theorem tail_clear_sign_no_panic : forall s p, tail_clear_sign s <> Panic p.
+Proof. exact C11.TextProofs.tail_clear_sign_no_panic. Qed.
+Theorem head_clear_sign_no_panic : forall s p, head_clear_sign s <> Panic p.
+Proof. exact C11.TextProofs.head_clear_sign_no_panic. Qed.
+Theorem detach_clear_sign_no_hang : forall msg p, detach_clear_sign msg <> Panic p.
+Proof. exact C11.TextProofs.detach_clear_sign_no_hang. Qed.
+Theorem released_pipe_scanners_no_panic : forall stream p,
+  pipe_run cl_releases stream tail_clear_sign <> Panic p /\ pipe_run cl_releases stream head_clear_sign <> Panic p.
+Proof. exact C11.TextProofs.released_pipe_scanners_no_panic. Qed.
+Theorem unreleased_pipe_hangs : exists stream, pipe_run false stream tail_clear_sign = Panic P_HANG.
+Proof. exact C11.TextProofs.unreleased_pipe_hangs. Qed.
+Theorem detach_clear_sign_ok_when : forall msg,
+  Forall (fun l => zlen l < max_token - 2) (raw_lines msg) -> detach_clear_sign msg = Ok tt.
+Proof. exact C11.TextProofs.detach_clear_sign_ok_when. Qed.
+(* the source as srcgen reads it NOW has exactly the reviewed index / slice / assertion sites in the modelled functions,
+   the reviewed goroutines (none recovers; only signdeb.Sign drains), and the reviewed unguarded sites in every
+   input-facing package of the list *)
+Theorem modelled_sites_reviewed :
+  c11_pc_sites = reviewed_pc_sites /\ c11_cs_sites = reviewed_cs_sites /\ c11_sign_sites = reviewed_sign_sites /\
+  c11_sm_sites = reviewed_sm_sites /\ c11_ps_sites = reviewed_ps_sites /\ c11_pm_sites = reviewed_pm_sites /\
+  c11_dm_sites = reviewed_dm_sites /\ c11_pc_fields = reviewed_pc_fields.
+Proof.
+  exact (conj C11.TextProofs.pc_sites_reviewed (conj C11.TextProofs.cs_sites_reviewed (conj C11.TextProofs.sign_sites_reviewed
+        (conj C11.TextProofs.sm_sites_reviewed (conj C11.TextProofs.ps_sites_reviewed (conj C11.TextProofs.pm_sites_reviewed
+        (conj C11.TextProofs.dm_sites_reviewed C11.TextProofs.pc_fields_reviewed))))))).
+Qed.
+Theorem goroutines_reviewed : c11_goroutines = reviewed_goroutines.
+Proof. exact C11.TextProofs.goroutines_reviewed. Qed.
+Theorem unguarded_sites_reviewed :
+  c11_unguarded_signdeb = C11.Sites.reviewed_signdeb /\ c11_unguarded_pgptools = C11.Sites.reviewed_pgptools /\
+  c11_unguarded_signjar = C11.Sites.reviewed_signjar /\ c11_unguarded_appmanifest = C11.Sites.reviewed_appmanifest /\
+  c11_unguarded_signers_deb = C11.Sites.reviewed_signers_deb /\ c11_unguarded_signers_pgp = C11.Sites.reviewed_signers_pgp /\
+  c11_unguarded_xmldsig = C11.Sites.reviewed_xmldsig /\ c11_unguarded_comdoc = C11.Sites.reviewed_comdoc /\
+  c11_unguarded_csblob = C11.Sites.reviewed_csblob /\ c11_unguarded_xar = C11.Sites.reviewed_xar /\
+  c11_unguarded_dmg = C11.Sites.reviewed_dmg /\ c11_unguarded_machos = C11.Sites.reviewed_machos.
+Proof.
+  exact (conj C11.Sites.sites_signdeb_reviewed (conj C11.Sites.sites_pgptools_reviewed (conj C11.Sites.sites_signjar_reviewed
+        (conj C11.Sites.sites_appmanifest_reviewed (conj C11.Sites.sites_signers_deb_reviewed (conj C11.Sites.sites_signers_pgp_reviewed
+        (conj C11.Sites.sites_xmldsig_reviewed (conj C11.Sites.sites_comdoc_reviewed (conj C11.Sites.sites_csblob_reviewed
+        (conj C11.Sites.sites_xar_reviewed (conj C11.Sites.sites_dmg_reviewed C11.Sites.sites_machos_reviewed))))))))))).
+Qed.
+
 (* ------------------------------------------------------------------ non-vacuity: the models accept well-formed input *)
 Example load_accepts : exists r, load ([0;0;0;1; 0;0;0;1] ++ [0;0;0;0;0;0;0;5; 0;0;0;2; 0;0;0;3] ++ [7;8;9]) = Ok r.
 Proof. eexists. vm_compute. reflexivity. Qed.
@@ -49,4 +128,29 @@ Example signers_accepts : exists r,
 Proof. eexists. vm_compute. reflexivity. Qed.
 (* the guards are necessary: without the fix of relic commit 8f6be83 (`4+len(blob) < size`) this input sliced out of range *)
 Example prefix_overrun_is_error : unmarshal SBytes [8;0;0;0; 1;2;3;4] = Err E_EOF.
+Proof. vm_compute. reflexivity. Qed.
+
+(* a control file as dpkg-deb writes it, with a folded description, a comment, an empty line and CR LF endings *)
+Definition sample_control : bytes :=
+  [80;97;99;107;97;103;101;58;32;100;101;109;111;13;10] ++ [86;101;114;115;105;111;110;58;9;49;46;48;10] ++
+  [35;32;99;58;32;120;10] ++ [10] ++ [65;114;99;104;105;116;101;99;116;117;114;101;58;32;97;108;108;10] ++ [32;102;111;108;100;58;32;120;10].
+Example control_accepts : parse_control sample_control = Ok (mkInfo [100;101;109;111] [49;46;48] [97;108;108]).
+Proof. vm_compute. reflexivity. Qed.
+Example control_matches_spec : spec_simple sample_control = true /\ spec_control sample_control = Some (mkInfo [100;101;109;111] [49;46;48] [97;108;108]).
+Proof. split; vm_compute; reflexivity. Qed.
+Example control_odd_lines_are_skipped : parse_control (sample_control ++ [58;10;58;32;10;32;10;0;58;0]) = parse_control sample_control.
+Proof. vm_compute. reflexivity. Qed.
+Example control_missing_is_error : parse_control [80;97;99;107;97;103;101;58;102;111;111;10] = Err E_MISSING.
+Proof. vm_compute. reflexivity. Qed.
+(* "Files:" then one digest line with md5, sha1, size, name — accepted *)
+Definition sample_sums : bytes := repeat 48 32 ++ [32] ++ repeat 49 40.
+Definition sample_body : bytes := [86;58;32;52;10] ++ [70;105;108;101;115;58;10] ++ [9] ++ sample_sums ++ [32;52;32;97;10] ++ [10].
+Example check_sig_accepts : check_sig [([97], sample_sums)] sample_body = Ok tt.
+Proof. vm_compute. reflexivity. Qed.
+(* Manifest-Version: 1\r\n\r\nName: a\r\n\r\n *)
+Definition sample_manifest : bytes :=
+  [77;97;110;105;102;101;115;116;45;86;101;114;115;105;111;110;58;32;49;13;10;13;10] ++ [78;97;109;101;58;32;97;13;10;13;10].
+Example manifest_accepts : parse_manifest sample_manifest = Ok (1, false) /\ digest_manifest sample_manifest = Ok 1.
+Proof. split; vm_compute; reflexivity. Qed.
+Example tail_keeps_signature : tail_clear_sign ([97;10] ++ c11_cl_sig_header ++ [10;98;10]) = Ok (c11_cl_sig_header ++ [13;10;98;13;10]).
 Proof. vm_compute. reflexivity. Qed.
